@@ -166,16 +166,16 @@ IndexNext ==
 \* a new id) and the index is rebuilt.
 \* Only the query points and edges that concern the catalogue are used, so that short exhaustive
 \* explorations reach: query, remove, add again, rebuild, query.  Mode = "index-ceq" leaves out the
-\* ContainsPointQuery.
+\* ContainsPointQuery, Mode = "index-cpq" the CrossingEdgeQuery.
 PointsQ == {p \in Points : \E s \in Catalog \ {"SF"} : CentreOf[s] = p}
 QEdgesQ == {e \in QEdges : CrossedBy[e] \in Catalog}
 IndexQNext ==
     \/ \E s \in ShapeNames : Add(s) \/ Remove(s)
     \/ Build \/ Reset
-    \/ Mode = "index-q" /\ cpq = -1 /\ NewCPQ
-    \/ ceq = -1 /\ NewCEQ
-    \/ Mode = "index-q" /\ \E p \in PointsQ : Contains(p)
-    \/ \E e \in QEdgesQ : Cross(e)
+    \/ Mode \in {"index-q", "index-cpq"} /\ cpq = -1 /\ NewCPQ
+    \/ Mode \in {"index-q", "index-ceq"} /\ ceq = -1 /\ NewCEQ
+    \/ Mode \in {"index-q", "index-cpq"} /\ \E p \in PointsQ : Contains(p)
+    \/ Mode \in {"index-q", "index-ceq"} /\ \E e \in QEdgesQ : Cross(e)
 
 \* ======================================================================== eq
 \* index = {S1, S2} built.  Query objects with user options (maxResults, limit).
@@ -184,12 +184,18 @@ IndexQNext ==
 \* tested edges, per-call scratch state that must not survive the call.
 \* Q5: exact search (no permitted error) with ShapeIndex targets: a target object reused after a
 \* threshold call must not keep the error that call permitted.
-Queries == {"Q1", "Q2", "Q3", "Q4", "Q5"}
+\* F1, F2: furthest-edge queries (F1 with point targets, F2 with ShapeIndex targets), no limit, all
+\* results.  Their threshold call is IsDistanceGreater: with two shapes on different cube faces some
+\* edge is always further than "near" from any target, and nothing is further than 180 degrees.
+Queries == {"Q1", "Q2", "Q3", "Q4", "Q5", "F1", "F2"}
+Furthest == {"F1", "F2"}
 UserOpts == [Q1 |-> [max |-> Inf, limit |-> "inf"],
              Q2 |-> [max |-> 3, limit |-> "inf"],
              Q3 |-> [max |-> Inf, limit |-> "near"],
              Q4 |-> [max |-> 3, limit |-> "inf"],
-             Q5 |-> [max |-> Inf, limit |-> "inf"]]
+             Q5 |-> [max |-> Inf, limit |-> "inf"],
+             F1 |-> [max |-> Inf, limit |-> "inf"],
+             F2 |-> [max |-> Inf, limit |-> "inf"]]
 Targets == {"P0", "P1", "P2", "P3"}
 \* The indexed geometry can be replaced (EdgeQuery.Reset on every query object, ShapeIndex.Reset,
 \* new shapes): the variable epoch counts the replacements, even = {S1,S2}, odd = {S2,S3}.
@@ -217,7 +223,8 @@ Distance(q, t) ==
 IsDistanceLess(q, t, d) ==
     /\ eff' = IF AsImplemented THEN [eff EXCEPT ![q] = [max |-> 1, limit |-> d]] ELSE eff
     /\ UNCHANGED <<shapes, nextID, pendPos, status, indexed, epoch, cpq, ceq, inv, lidx>>
-    /\ h' = Log([a |-> "IsDistanceLess", q |-> q, x |-> t, d |-> d, r |-> IsLessAns(t, d), eff |-> UserOpts[q]])
+    /\ h' = Log([a |-> "IsDistanceLess", q |-> q, x |-> t, d |-> d,
+                 r |-> IF q \in Furthest THEN d = "near" ELSE IsLessAns(t, d), eff |-> UserOpts[q]])
 
 SwitchGeo ==
     /\ epoch' = epoch + 1
@@ -282,13 +289,13 @@ Init ==
 
 Finish ==
     /\ Len(h) = MaxLen
-    /\ PrintT(<<"HIST", ToJson([op |-> "c13." \o (IF Mode \in {"index-q", "index-ceq"} THEN "index" ELSE IF Mode = "eq1" THEN "eq" ELSE Mode), steps |-> h])>>)
+    /\ PrintT(<<"HIST", ToJson([op |-> "c13." \o (IF Mode \in {"index-q", "index-ceq", "index-cpq"} THEN "index" ELSE IF Mode = "eq1" THEN "eq" ELSE Mode), steps |-> h])>>)
     /\ UNCHANGED vars
 
 Next ==
     \/ /\ Len(h) < MaxLen
        /\ \/ Mode = "index" /\ IndexNext
-          \/ Mode \in {"index-q", "index-ceq"} /\ IndexQNext
+          \/ Mode \in {"index-q", "index-ceq", "index-cpq"} /\ IndexQNext
           \/ Mode \in {"eq", "eq1"} /\ EqNext
           \/ Mode = "loop" /\ LoopNext
     \/ Finish
